@@ -162,12 +162,85 @@ def scan_module(repo, mod):
     return sorted(mutables.values()) + sorted(classes.values()) + written_imports, writes
 
 
+ENTRY = ["wsgi.Application.__call__"]
+
+
+def reachable(repo):
+    """functions that can run while a request is served: a syntactic call graph over the package, by simple
+    name (over-approximation), from Application.__call__"""
+    funcs = {}          # qualname -> ast node
+    by_name = {}        # simple name -> [qualname]
+    classes = {}        # class name -> [qualname of __init__/__new__]
+    props = {}          # property name -> [qualname]
+    bases = {}          # class name -> base class names
+    dunders = []
+    for mod in MODULES:
+        path = os.path.join(repo, "poorwsgi", mod + ".py")
+        tree = ast.parse(open(path).read(), path)
+        for node in tree.body:
+            if isinstance(node, (ast.FunctionDef, ast.AsyncFunctionDef)):
+                q = "%s.%s" % (mod, node.name)
+                funcs[q] = node
+                by_name.setdefault(node.name, []).append(q)
+            elif isinstance(node, ast.ClassDef):
+                bases[node.name] = [b.id if isinstance(b, ast.Name) else getattr(b, "attr", "") for b in node.bases]
+                for sub in node.body:
+                    if isinstance(sub, (ast.FunctionDef, ast.AsyncFunctionDef)):
+                        q = "%s.%s.%s" % (mod, node.name, sub.name)
+                        funcs[q] = sub
+                        if sub.name not in ("__init__", "__new__"):      # constructors: through the class name
+                            by_name.setdefault(sub.name, []).append(q)
+                        if sub.name in ("__init__", "__new__"):
+                            classes.setdefault(node.name, []).append(q)
+                        elif sub.name.startswith("__") and sub.name.endswith("__") and sub.name != "__del__":
+                            dunders.append(q)
+                        for dec in sub.decorator_list:
+                            d = ast.unparse(dec)
+                            if d == "property" or d.endswith(".setter") or d.endswith(".getter"):
+                                props.setdefault(sub.name, []).append(q)
+    seen, todo = set(), [e for e in ENTRY if e in funcs]
+    if not todo:
+        raise ValueError("entry point %r not found" % (ENTRY,))
+    first = True
+    while todo:
+        q = todo.pop()
+        if q in seen:
+            continue
+        seen.add(q)
+        if first:
+            todo.extend(dunders)       # implicit protocol methods of the objects a request handles
+            first = False
+        for node in ast.walk(funcs[q]):
+            if isinstance(node, ast.Call):
+                f = node.func
+                name = f.id if isinstance(f, ast.Name) else (f.attr if isinstance(f, ast.Attribute) else None)
+                if name is None:
+                    continue
+                mangled = name
+                todo.extend(by_name.get(name, []))
+                # a constructor call runs the __init__ of the class and of its ancestors (super().__init__)
+                anc, stack = [], [name]
+                while stack:
+                    c = stack.pop()
+                    if c in bases and c not in anc:
+                        anc.append(c)
+                        stack.extend(bases[c])
+                for c in anc:
+                    todo.extend(classes.get(c, []))
+                # private names are written __x inside the class and called as self.__x
+                todo.extend(by_name.get(mangled, []))
+            elif isinstance(node, ast.Attribute):
+                todo.extend(props.get(node.attr, []))
+    return sorted(seen)
+
+
 def gen_shared(repo):
     muts, writes = [], []
     for mod in MODULES:
         m, w = scan_module(repo, mod)
         muts += m
         writes += w
+    reach = reachable(repo)
     from translator.gen import lean_str, HEADER
     lines = [HEADER, "namespace Poor.Gen.Shared", "",
              "/-- module and class level mutable containers of the package (and imported ones it writes) -/",
@@ -175,5 +248,7 @@ def gen_shared(repo):
              "/-- every syntactic write to one of them: (object, enclosing function, operation) -/",
              "def writes : List (String × String × String) := ["
              + ",\n  ".join("(%s, %s, %s)" % (lean_str(o), lean_str(f), lean_str(op)) for o, f, op in writes) + "]", "",
+             "/-- functions that can run while a request is served (call graph from Application.__call__) -/",
+             "def requestReachable : List String := [" + ", ".join(lean_str(x) for x in reach) + "]", "",
              "end Poor.Gen.Shared", ""]
-    return "\n".join(lines), {"mutables": len(muts), "writes": len(writes)}
+    return "\n".join(lines), {"mutables": len(muts), "writes": len(writes), "reachable": len(reach)}
